@@ -1,18 +1,18 @@
-SPECIFICATION Spec
+SPECIFICATION SliceSpec
 CONSTANTS
   Node = {1, 2, 3}
   RF = 3
-  Txs <- TxDef2
-  MaxView = 1
+  Txs <- TxDef3
+  MaxView = 2
   MaxDup = 0
-  MaxCrash = 1
-  MaxLose = 0
+  MaxCrash = 2
+  MaxLose = 4
   QuorumDelta = 0
   CheckConfirm = TRUE
   HoldBack = {}
   PinSeq = TRUE
   TxStream <- StreamDef
 VIEW View
-INVARIANTS CntShape OneConfirmedPerSeq ConfirmedPrefixAgree AckedOnQuorum QuorumCountMeansQuorumHeld
+INVARIANTS EmitSlice CntShape OneConfirmedPerSeq ConfirmedPrefixAgree AckedOnQuorum QuorumCountMeansQuorumHeld
 PROPERTY AckedStable
 CHECK_DEADLOCK FALSE
